@@ -232,6 +232,17 @@ func applyOp(api frontend.API, op string, pr []int, a []frontend.Variable) ([]fr
 		return selector.Slice(api, a[0], a[1], a[2:]), nil
 	case "partition":
 		return selector.Partition(api, a[0], pr[0] != 0, a[1:]), nil
+	// ---- in-circuit commitments (suite "commit": only the MASKED query of C20 reads these systems)
+	case "commit":
+		cm, ok := api.(frontend.Committer)
+		if !ok {
+			return nil, fmt.Errorf("builder does not commit")
+		}
+		v, err := cm.Commit(a...)
+		if err != nil {
+			return nil, err
+		}
+		return one(v), nil
 	// ---- std/math/bitslice (on an API that offers no commitment, so that the range checks are the
 	// plain bit-decomposition ones; the commit-based checker is C13's subject)
 	case "bitslice":
@@ -632,8 +643,37 @@ func stdPrograms() []Prog {
 	return out
 }
 
+// circuits with 1..3 in-circuit commitments over secret / public / previously committed variables
+func commitPrograms() []Prog {
+	var out []Prog
+	in := func(i int) Arg { return Arg{Kind: "in", I: i} }
+	S := func(op string, args ...Arg) Step { return Step{Op: op, Args: args} }
+	add := func(name, tier string, inPub []bool, steps []Step) {
+		var outs []OutRef
+		for i, st := range steps {
+			if st.Op == "commit" {
+				outs = append(outs, OutRef{i, 0})
+			}
+		}
+		out = append(out, Prog{Name: "commit." + name, Suite: "commit", Tier: tier, InPublic: inPub, Steps: steps, Outs: outs})
+	}
+	f2, f3 := []bool{false, false}, []bool{false, false, false}
+	add("one", "quick", f2, []Step{S("commit", in(0))})
+	add("one_two_vars", "quick", f2, []Step{S("commit", in(0), in(1))})
+	add("one_public", "quick", []bool{true, false}, []Step{S("commit", in(0), in(1))})
+	add("two_disjoint", "quick", f2, []Step{S("commit", in(0)), S("commit", in(1))})
+	add("two_same_var", "quick", f2, []Step{S("commit", in(0), in(1)), S("commit", in(0))})
+	add("two_chained", "quick", f2, []Step{S("commit", in(0)), S("commit", sref(0, 0), in(1))})
+	add("two_product", "quick", f2, []Step{S("mul", in(0), in(1)), S("commit", sref(0, 0)), S("commit", sref(0, 0), in(1))})
+	add("three", "quick", f3, []Step{S("commit", in(0)), S("commit", in(1)), S("commit", in(2), in(0))})
+	add("three_chained", "thorough", f3, []Step{S("commit", in(0)), S("commit", sref(0, 0), in(1)), S("commit", sref(1, 0), sref(0, 0), in(2))})
+	add("two_only_public", "thorough", []bool{true, true}, []Step{S("commit", in(0)), S("commit", in(1))})
+	return out
+}
+
 func allPrograms() []Prog {
 	var out []Prog
+	out = append(out, commitPrograms()...)
 	out = append(out, coreSingleOpPrograms()...)
 	out = append(out, coreCompositions()...)
 	out = append(out, stdPrograms()...)
